@@ -728,6 +728,9 @@ class Origins:
             return ('const', 'promoted', k['idx'])
         if c == 'zst':
             return ('const', 'zst', k.get('ty'))
+        if c == 'ptr' and k.get('bytes'):
+            # byte-string literal: ('const', 'ptr', type, b'RTPS')
+            return ('const', 'ptr', k.get('ty'), bytes(k['bytes']))
         return ('const', c, k.get('ty'))
 
     def of_place(self, pl, bb, si, depth=0):
